@@ -1,5 +1,18 @@
 (* Props/C12.v — the audited surface for property C12 (reindex preserves overlapping periods and fills the rest,
-   on a fresh object).  Statements only; every proof is `exact <lemma>`; Print Assumptions under each. *)
+   on a fresh object).  Statements only; every proof is `exact <lemma>`; Print Assumptions under each.
+
+   Clauses WITHOUT a theorem (checked by the direct oracle on the implementation only): "a new object of the same class" (the
+   model's state has no class); "the original object is unchanged" (reindex_M is a pure function of the original, so this is true
+   of the model by construction, nothing is proved: the oracle snapshots the original's series, span, variable names and public
+   attributes before the call and compares after it — also when the call raised — and again after overwriting the result).
+   The NaN default of float variables is NumPy's conversion of None: in the theorems it is `cast n DFloat PNone` for an arbitrary
+   conversion `cast`; that it is NaN is a fact of the table cast_tbl (C12_cast_tbl_defaults) which the correspondence check validates.
+   Documented exclusions: a NumPy-array OLD span with a repeated label (span_ok asks NoDup there): the call fails with KeyError when
+   that label is requested (C12_dup_arr_old_span_KeyError); list / tuple / range old spans with repeated labels ARE covered
+   (first occurrence: old_span_ok holds, C12_dup_list_old_span_covered) — there the oracle checks every label that is not itself
+   repeated.  The conversion of an unconvertible fill value (which exception class) and slice-valued locations (text labels on
+   Period / Datetime old spans) are K-only.
+   Theorems marked [definitional] restate a definition; they document the model and cover no clause by themselves. *)
 From Coq Require Import ZArith List Bool String.
 Import ListNotations.
 Require Import PyBase Generated Locate LocateFacts LocateExamples LocateIndex LocateIndexFacts Reindex ReindexPd ReindexFacts ReindexFacts2 ReindexExamples.
@@ -55,7 +68,8 @@ Section C12.
     old_span_ok pd_get_loc pd_contains old labels.
   Proof. exact (old_span_ok_intro pd_get_loc pd_contains old labels). Qed.
 
-  (* fill precedence: per-variable keyword > fill_value; the dtype defaults the code supplies for None *)
+  (* [definitional: fill_for IS this match] fill precedence: per-variable keyword > fill_value; the precedence is USED by
+     C12_reindex_values, which is where it covers the clause.  Then the dtype defaults the code supplies for None *)
   Theorem C12_fill_precedence (fills : list (string * pyval)) (fv : pyval) (name : string) :
     fill_for fills fv name = match lookup name fills with Some v => v | None => fv end.
   Proof. exact (fill_precedence fills fv name). Qed.
@@ -231,8 +245,8 @@ Section C12.
       /\ lookup name (c_vars r') = Some (mkSeries (s_dtype sn) (s_id sn) d).
   Proof. exact (pandas_loop_var series_reindex assign_cast orig new_span mf fills fv names r r'). Qed.
 
-  (* where pandas' answer, cast back, reproduces the series the core reindex made (float variables with the default NaN fill),
-     the mixin returns exactly the core's result *)
+  (* [conditional: assumes each iteration reproduces the core's series and concludes the loop is the identity; its hypothesis is
+     discharged for float64 variables relative to the pandas model in C12_pandas_float_unaffected] *)
   Theorem C12_pandas_loop_noop orig new_span mf fills fv names r :
     (forall name, In name names ->
        exists so sn, lookup name (c_vars orig) = Some so /\ lookup name (c_vars r) = Some sn
@@ -287,7 +301,8 @@ Print Assumptions C12_pandas_loop_var.
 Print Assumptions C12_pandas_loop_noop.
 Print Assumptions C12_pandas_reindex_meta.
 
-(* models: status '-' (SolutionStatus.UNSOLVED.value, regenerated) and iterations -1 unless given; fill_value never reaches them *)
+(* [near-definitional: unfolds with_model_defaults; used by C12_model_reindex_values, which covers the clause] models: status '-'
+   (SolutionStatus.UNSOLVED.value, regenerated) and iterations -1 unless given; fill_value never reaches them *)
 Theorem C12_model_defaults (fills : list (string * pyval)) (fv : pyval) :
   fill_for (with_model_defaults fills) fv "status" = match lookup "status" fills with Some v => v | None => PStr "-" end
   /\ fill_for (with_model_defaults fills) fv "iterations" = match lookup "iterations" fills with Some v => v | None => PInt (-1) end
@@ -357,8 +372,8 @@ Theorem C12_regular_index_reindex_values (k : ikind) (a s : Z) (n : nat) (cast :
 Proof. exact (regular_index_reindex_values k a s n cast st st' new_span new_id fv strict fills fresh). Qed.
 Print Assumptions C12_regular_index_reindex_values.
 
-(* BaseLinker.reindex is documented as not implemented: NotImplementedError whatever the arguments (the property does not
-   quantify over linkers) *)
+(* [definitional: the model of BaseLinker.reindex IS the constant Raise NotImplementedError] documented as not implemented; the
+   property does not quantify over linkers; K checks the class of the exception and that the linker is unchanged *)
 Theorem C12_linker_reindex_not_implemented (st : cst) new_span new_id fv strict fills fresh :
   linker_reindex_M st new_span new_id fv strict fills fresh = Raise NotImplementedError.
 Proof. exact (linker_reindex_not_implemented st new_span new_id fv strict fills fresh). Qed.
@@ -388,3 +403,29 @@ Theorem C12_plain_index_old_span_ok (ls labels : list label) :
   old_span_ok (fun l => plain_get_loc l) (fun l => plain_contains l) (SPandas ls) labels.
 Proof. exact (plain_index_old_span_ok ls labels). Qed.
 Print Assumptions C12_plain_index_old_span_ok.
+
+(* ---------- repeated labels in the OLD span; the table's dtype defaults ---------- *)
+Theorem C12_dup_list_old_span_covered :
+  old_span_ok no_pandas no_contains (c_span rx_dup_list) [LInt 1; LInt 2; LInt 3]
+  /\ option_map (fun s => map (fun kv => s_data (snd kv)) (c_vars s))
+                (match reindex_M no_pandas no_contains cast_tbl rx_dup_list (SList [LInt 1; LInt 2; LInt 3]) 9 PNone None [] 100 with Ret s => Some s | Raise _ => None end)
+     = Some [[CF (FNum 2); CF (FNum 4); CF FNan]].
+Proof. exact (conj rx_dup_list_old_span_ok rx_dup_list_first_occurrence). Qed.
+Print Assumptions C12_dup_list_old_span_covered.
+
+Theorem C12_dup_arr_old_span_KeyError :
+  reindex_M no_pandas no_contains cast_tbl (mkC (SArr [LInt 1; LInt 2; LInt 1]) 0 [("F"%string, mkSeries DFloat 1 [CF (FNum 2); CF (FNum 4); CF (FNum 6)])] [] false)
+            (SList [LInt 1; LInt 2]) 9 PNone None [] 100 = Raise KeyError
+  /\ option_map (fun s => map (fun kv => s_data (snd kv)) (c_vars s))
+                (match reindex_M no_pandas no_contains cast_tbl (mkC (SArr [LInt 1; LInt 2; LInt 1]) 0 [("F"%string, mkSeries DFloat 1 [CF (FNum 2); CF (FNum 4); CF (FNum 6)])] [] false)
+                                 (SList [LInt 2; LInt 3]) 9 PNone None [] 100 with Ret s => Some s | Raise _ => None end)
+     = Some [[CF (FNum 4); CF FNan]].
+Proof. exact rx_dup_arr_old_span_KeyError. Qed.
+Print Assumptions C12_dup_arr_old_span_KeyError.
+
+Theorem C12_cast_tbl_defaults :
+  forall n, fill_cell cast_tbl (S n) DFloat PNone = Ret (CF FNan) /\ fill_cell cast_tbl n DInt PNone = Ret (CI 0)
+            /\ fill_cell cast_tbl n DBool PNone = Ret (CB false) /\ fill_cell cast_tbl n (DStr 2) PNone = Ret (CS "")
+            /\ fill_cell cast_tbl n DObj PNone = Ret (CV PNone).
+Proof. exact rx_cast_tbl_defaults. Qed.
+Print Assumptions C12_cast_tbl_defaults.
